@@ -89,10 +89,20 @@ pub fn parse_args() -> Args {
 
 #[derive(Clone, Debug)]
 pub struct KnownFinding {
-    pub property: String,
+    /// the properties this finding is visible through
+    pub properties: Vec<String>,
+    /// glob over violation classes (empty if this entry is a quirk entry)
     pub class: String,
+    /// name of the executable quirk model (vcore::refper::Quirk::name) this finding corresponds to
+    pub quirk: String,
     pub what: String,
     pub status: String,
+}
+
+impl KnownFinding {
+    pub fn applies_to(&self, property: &str) -> bool {
+        self.properties.iter().any(|p| p == property)
+    }
 }
 
 pub fn load_known_findings() -> Vec<KnownFinding> {
@@ -107,8 +117,13 @@ pub fn load_known_findings() -> Vec<KnownFinding> {
     });
     let mut out = vec![];
     for e in v["findings"].as_array().cloned().unwrap_or_default() {
+        let mut properties: Vec<String> = e["properties"].as_array().map(|a| a.iter().filter_map(|x| x.as_str().map(|s| s.to_string())).collect()).unwrap_or_default();
+        if let Some(p) = e["property"].as_str() {
+            properties.push(p.to_string());
+        }
         out.push(KnownFinding {
-            property: e["property"].as_str().unwrap_or("").to_string(),
+            properties,
+            quirk: e["quirk"].as_str().unwrap_or("").to_string(),
             class: e["class"].as_str().unwrap_or("").to_string(),
             what: e["what"].as_str().unwrap_or("").to_string(),
             status: e["status"].as_str().unwrap_or("open").to_string(),
@@ -217,13 +232,11 @@ impl Report {
         let mut lines = vec![];
         for (class, st) in &self.failures {
             let f = st.first.as_ref().unwrap();
-            let kf = known
-                .iter()
-                .find(|k| k.property == self.property && glob_match(&k.class, class) && k.status == "open");
+            let kf = find_known(&known, &self.property, class);
             if let Some(k) = kf {
                 lines.push(format!(
                     "KNOWN-FINDING: property={} class={} cases={} {}",
-                    self.property, class, st.count, k.what
+                    self.property, class, st.count, truncate(&k.what, 220)
                 ));
                 known_hit.push(json!({"class": class, "cases": st.count}));
             } else {
@@ -299,6 +312,28 @@ impl Report {
     }
 }
 
+/// A class `quirk.<a>+<b>[.<suffix>]` is known iff EVERY named quirk has an open entry for the
+/// property (so a repaired quirk that reappears is reported even in combination with an open one);
+/// any other class is known iff an open entry's class glob matches it.
+pub fn find_known<'a>(known: &'a [KnownFinding], property: &str, class: &str) -> Option<&'a KnownFinding> {
+    if let Some(rest) = class.strip_prefix("quirk.") {
+        let names = rest.split('.').next().unwrap_or("");
+        let mut first = None;
+        for n in names.split('+') {
+            match known.iter().find(|k| k.applies_to(property) && k.status == "open" && !k.quirk.is_empty() && k.quirk == n) {
+                Some(k) => {
+                    if first.is_none() {
+                        first = Some(k);
+                    }
+                }
+                None => return None,
+            }
+        }
+        return first;
+    }
+    known.iter().find(|k| k.applies_to(property) && k.status == "open" && !k.class.is_empty() && glob_match(&k.class, class))
+}
+
 /// `*` matches any (possibly empty) run of characters; everything else is literal.
 pub fn glob_match(pat: &str, s: &str) -> bool {
     let parts: Vec<&str> = pat.split('*').collect();
@@ -324,14 +359,7 @@ pub fn glob_match(pat: &str, s: &str) -> bool {
     true
 }
 
-pub fn truncate(s: &str, n: usize) -> String {
-    if s.chars().count() <= n {
-        s.to_string()
-    } else {
-        let t: String = s.chars().take(n).collect();
-        format!("{t}…")
-    }
-}
+pub use vbase::truncate;
 
 pub fn machinery_error(msg: &str) -> ! {
     eprintln!("MACHINERY-ERROR: {msg}");
